@@ -181,6 +181,18 @@ def run_live(ctx, queries, n):
         c.omode = None
         jobs.append((c, sched, 24, 80, None))
 
+    # machine-readable modes with input that goes IDLE before it ends (a refresh lands between the last row and end of
+    # input): the placeholder must still be replaced by the rows - fixed schedules, not left to the random bursts
+    for i, om in enumerate(['logfmt', 'format={k} {_count}']):
+        stages = [('json', None), ('agg', [(None, ('count', None))], [(None, col('k'))])]
+        mk = lambda j, k: json.dumps({'id': j, 'k': k}).encode() + b'\n'
+        part1 = [mk(0, 'a'), mk(1, 'b'), mk(2, 'a')]
+        part2 = [mk(3, 'c')]
+        sched = [(b''.join(part1), 0.15), (b''.join(part2), rng.choice([0.3, 0.4]))]
+        c = Case('m%d' % i, STAR, stages, [l.decode('utf8') for l in part1 + part2])
+        c.omode = om
+        jobs.append((c, sched, 24, 80, None))
+
     def run(job):
         c, sched, h, w, cp = job
         return ptydrive.run_pty(c.query, sched, h, w, mode=c.omode, checkpoints=(cp,) if cp is not None else ())
